@@ -134,6 +134,14 @@ def inprocess_case(case):
         for i in range(case["repeat"]):
             again = must("repeated-dumps", dump)
             check(again == first, "bytes-depend-on-dump-count", lambda: "%s: dump #%d differs: %s" % (fmt, i + 1, first_difference(first, again)))
+    if fmt in ("composeinfo", "images", "treeinfo"):
+        # written, changed, written again: the bytes are those of a fresh object with the new content
+        desc2 = must("modify-existing-object", {"composeinfo": cim.modify_ci, "images": imm.modify_images, "treeinfo": tim.modify_ti}[fmt], desc, obj)
+        changed = must("dumps-after-change", (lambda: tim.dump_text(obj, desc2.get("main_variant"))) if fmt == "treeinfo" else obj.dumps)
+        fresh = must("dumps-of-fresh-twin", dump_of, fmt, desc2, 0)
+        check(changed == fresh, "bytes-depend-on-object-history", lambda: "%s: object dumped, changed and dumped again differs from a fresh object with the same content: %s" % (
+            fmt, first_difference(fresh, changed)))
+        obj = {"composeinfo": cim.build_ci, "images": imm.build_images, "treeinfo": tim.build_ti}[fmt](desc, case["plans"][0])
     if fmt == "treeinfo" and desc["variants"]:
         # the optional main_variant argument belongs to ONE dump: dumps with other arguments in between leave no trace
         plain = must("dumps", tim.dump_text, tim.build_ti(desc, 0), None)
